@@ -165,14 +165,34 @@ def validateExpirationDate (s : State) (a : Attribute) : Bool :=
 
 def isNumeric (v : String) : Bool := !v.isEmpty && v.toList.all Char.isDigit
 
-/-- `isValidValueForType` on the value alphabet of the harness (decimal digit strings and
-strings starting with a letter). -/
+/-- the white space of the line protocol (`strings.TrimSpace` also strips the other Unicode
+spaces, which the harness does not draw) -/
+def isSpace (c : Char) : Bool := c = ' ' || c = '\t' || c = '\n' || c = '\r'
+
+/-- `strings.TrimSpace` of a VALUE (list based, so that it computes in proofs). -/
+def trimSpace (v : String) : String :=
+  String.ofList ((v.toList.dropWhile isSpace).reverse.dropWhile isSpace).reverse
+
+/-- `types.NewAttribute` (types/attribute.go:22): the value of every type but `bytes` and `proto`
+is stored without its surrounding white space; `bytes` / `proto` values are kept verbatim.  Only
+`MsgAddAttribute` goes through it (msg_server.go:30, msgs.go:39); the attributes of
+`MsgUpdateAttribute`, `MsgUpdateAttributeExpiration` and `MsgDeleteDistinctAttribute` carry the
+value of the message as it is.  `Op.add` carries the attribute `NewAttribute` returned. -/
+def newAttribute (a : Attribute) : Attribute :=
+  match a.ty with
+  | .bytes | .proto => a
+  | _ => { a with value := trimSpace a.value }
+
+/-- `isValidValueForType` (types/attribute.go:117) on the value alphabet of the harness (decimal
+digit strings and strings starting with a letter, with or without surrounding white space): the
+textual types are judged on the TRIMMED value (`isValidString` :148, `isValidInt` :161,
+`isValidFloat` :168), the value itself is not changed. -/
 def isValidValueForType (ty : AType) (v : String) : Bool :=
   match ty with
   | .unspecified => false
-  | .string => !v.isEmpty
-  | .int => isNumeric v
-  | .float => isNumeric v
+  | .string => !(trimSpace v).isEmpty
+  | .int => isNumeric (trimSpace v)
+  | .float => isNumeric (trimSpace v)
   | .proto => true
   | .bytes => true
 
@@ -385,7 +405,7 @@ def deleteName (s : State) (signer name : String) : Except Err State :=
 /-! ### messages and histories -/
 
 inductive Op
-  /-- `MsgAddAttribute` -/
+  /-- `MsgAddAttribute`; `attr` is what `types.NewAttribute` made of the message (`newAttribute`) -/
   | add (signer : String) (attr : Attribute)
   /-- `MsgUpdateAttribute` -/
   | update (signer addr name ov : String) (ot : AType) (nv : String) (nt : AType)
